@@ -22,7 +22,8 @@
 //	3                            the peer reads nodeManagementUseCaseData
 //
 // obs encoding: 0 parked, 1 blocked, 2 busy, 3 done, 4 t acquired, 5 not runnable, 6 b has,
-// 7 e a entry, 8 n ver sub av sc* support, 9 end of data.
+// 7 e a entry, 8 n ver sub av sc* support, 9 end of data; 94 t = the waiter t got the mutex and took
+// its copy while the finishing operation had not stored yet (hook "UseCase.store"; never in the model).
 package main
 
 import (
@@ -49,6 +50,25 @@ var names = []model.UseCaseNameType{"", model.UseCaseNameTypeControlOfBattery, m
 	model.UseCaseNameTypeEVChargingSummary, model.UseCaseNameTypeEVStateOfCharge, model.UseCaseNameTypeEVSECommissioningAndConfiguration}
 
 const nEnt, nActor, nName = 3, 2, 4
+
+// entity id -> address: ids 1 and 2 are nested (a sub-entity and its parent), so that address
+// comparisons that only look at a prefix are exercised; the model only needs distinct ids
+var entAddr = map[int64][]model.AddressEntityType{1: {1}, 2: {1, 1}, 3: {2}}
+
+func entID(a []model.AddressEntityType) int64 {
+	for id, x := range entAddr {
+		if len(x) == len(a) {
+			same := true
+			for i := range x {
+				same = same && x[i] == a[i]
+			}
+			if same {
+				return id
+			}
+		}
+	}
+	return 999
+}
 
 func actorOf(a int64) model.UseCaseActorType {
 	if a >= 1 && int(a) < len(actors) {
@@ -148,6 +168,7 @@ type worker struct {
 	run     func()
 	started chan struct{}
 	parked  chan struct{}
+	storing chan struct{} // reached the hook "UseCase.store" (just before SetData)
 	resume  chan struct{}
 	done    chan struct{}
 	state   int // 0 not started (held back), 1 waiting for the mutex, 2 parked at the hook, 3 done
@@ -172,7 +193,7 @@ func goid() int64 {
 }
 
 func (s *sched) yield(point string) {
-	if point != "UseCase.copied" {
+	if point != "UseCase.copied" && point != "UseCase.store" {
 		return
 	}
 	s.mu.Lock()
@@ -182,7 +203,11 @@ func (s *sched) yield(point string) {
 	if w == nil || drain {
 		return
 	}
-	w.parked <- struct{}{}
+	if point == "UseCase.store" {
+		w.storing <- struct{}{}
+	} else {
+		w.parked <- struct{}{}
+	}
 	<-w.resume
 }
 
@@ -303,7 +328,7 @@ func newImpl() hx.Impl {
 		sc: &sched{byGoid: map[int64]*worker{}}}
 	m.dev = spine.NewDeviceLocal("brand", "model", "serial", "code", localDev, model.DeviceTypeTypeEnergyManagementSystem, model.NetworkManagementFeatureSetTypeSmart)
 	for e := int64(1); e <= nEnt; e++ {
-		ent := spine.NewEntityLocal(m.dev, model.EntityTypeTypeCEM, []model.AddressEntityType{model.AddressEntityType(e)}, 4*time.Second)
+		ent := spine.NewEntityLocal(m.dev, model.EntityTypeTypeCEM, entAddr[e], 4*time.Second)
 		m.ents[e] = ent
 		m.dev.AddEntity(ent)
 	}
@@ -353,13 +378,19 @@ func (m *impl) Close() {
 		if w.state == 0 {
 			continue
 		}
-		select {
-		case <-w.done:
-		case <-w.parked: // reached the hook concurrently with the drain flag
-			w.resume <- struct{}{}
-			<-w.done
-		case <-time.After(5 * time.Second):
-			fmt.Println("c20: goroutine did not finish")
+	wait:
+		for {
+			select {
+			case <-w.done:
+				break wait
+			case <-w.parked: // reached a hook concurrently with the drain flag
+				w.resume <- struct{}{}
+			case <-w.storing:
+				w.resume <- struct{}{}
+			case <-time.After(5 * time.Second):
+				fmt.Println("c20: goroutine did not finish")
+				break wait
+			}
 		}
 	}
 	spine.VerifSetYieldLT(nil)
@@ -400,9 +431,8 @@ func (m *impl) renderData(d *model.NodeManagementUseCaseDataType) []hx.Zs {
 	if d != nil {
 		for _, info := range d.UseCaseInformation {
 			var e int64 = 999
-			if info.Address != nil && info.Address.Device != nil && string(*info.Address.Device) == localDev &&
-				len(info.Address.Entity) == 1 && info.Address.Feature == nil {
-				e = int64(info.Address.Entity[0])
+			if info.Address != nil && info.Address.Device != nil && string(*info.Address.Device) == localDev && info.Address.Feature == nil {
+				e = entID(info.Address.Entity)
 			}
 			out = append(out, hx.Zs{7, e, actorID(info.Actor)})
 			for _, s := range info.UseCaseSupport {
@@ -438,7 +468,7 @@ func (m *impl) Exec(op hx.Zs) []hx.Zs {
 		if f == nil {
 			return []hx.Zs{{97}}
 		}
-		w := &worker{tid: t, run: f, started: make(chan struct{}), parked: make(chan struct{}, 1), resume: make(chan struct{}), done: make(chan struct{})}
+		w := &worker{tid: t, run: f, started: make(chan struct{}), parked: make(chan struct{}, 1), storing: make(chan struct{}, 1), resume: make(chan struct{}), done: make(chan struct{})}
 		m.threads[t] = w
 		if m.waiter != nil {
 			m.heldBack = append(m.heldBack, w)
@@ -461,13 +491,34 @@ func (m *impl) Exec(op hx.Zs) []hx.Zs {
 			return []hx.Zs{{5}}
 		}
 		w.resume <- struct{}{}
+		var anomaly []hx.Zs
 		select {
 		case <-w.done:
 			w.state = 3
+		case <-w.storing:
+			// The operation stands just before SetData.  It must still hold the mutex: a goroutine
+			// waiting for the mutex must not be able to reach its own copy now (it would work on a
+			// snapshot that misses this update).  Probe, then let the operation store and return.
+			if wt := m.waiter; wt != nil {
+				select {
+				case <-wt.parked:
+					wt.state = 2
+					wt.parked <- struct{}{} // keep the token for the hand-off code below
+					anomaly = append(anomaly, hx.Zs{94, wt.tid})
+				case <-time.After(3 * time.Millisecond):
+				}
+			}
+			w.resume <- struct{}{}
+			select {
+			case <-w.done:
+				w.state = 3
+			case <-time.After(5 * time.Second):
+				return []hx.Zs{{96}}
+			}
 		case <-time.After(5 * time.Second):
 			return []hx.Zs{{96}}
 		}
-		out := []hx.Zs{{3}}
+		out := append(anomaly, hx.Zs{3})
 		// the mutex was released: the waiter (if any) acquires it; then the held-back Begins follow
 		for m.waiter != nil {
 			wt := m.waiter
